@@ -11,6 +11,9 @@ built = {
  'C08': dict(cat='exploration', ref='DESIGN.md §4 C08', tech=T_ENUM,
    text='Every accepted program of the enumerated spaces (built-in repertoire x argument lists x syntactic positions, statement templates x operand menu, every harvested program x stdin menu) is translated and executed on the real VM under an instruction budget; oracle = ends normally or with a coded BASIC run-time error.',
    note='INKEY$ excluded; budget exhaustion counts only for loop-free programs; in-memory devices via the verif hook.'),
+ 'C10': dict(cat='exploration', ref='DESIGN.md §4 C10', tech=T_ENUM,
+   text='Every operator sequence of length 1..4 (thorough: 5) over the 13 binary operators with unary and parenthesis variants is parsed by the real parser and its tree compared with an independent precedence climber (modulo AND/OR chain association); every 16-bit literal in decimal/hex/octal with leading zeros, a 32-bit lattice, large decimals and fractions are checked for node kind and exact value, also after unary and binary minus.',
+   note='Tree-level oracle; the climber encodes the precedence order stated by the property; no blank after a unary minus (the grammar does not allow one).'),
  'C19': dict(cat='exploration', ref='DESIGN.md §4 C19', tech=T_ENUM,
    text='Bounded-exhaustive enumeration on the real functions (qb_and/qb_or on all 65536 x 79-lattice pairs, i32_to_bytes/bytes_to_i32 on all 65536 values, f64_to_bytes/bytes_to_f64 on every biased exponent x mantissa lattice x sign) and on the real interpreter (AND/OR/NOT via PRINT, PEEK/POKE via VARPTR, MKD$/CVD through RANDOM-file records), each compared with the machine operations.',
    note='Oracle = Rust i16 bit operations and f64::to_le_bytes; doubles restricted to a mantissa lattice; strings with bytes >= 128 only observed through RANDOM files (R8).'),
